@@ -604,7 +604,7 @@ fn libm_tables(c: &Value) -> (Vec<[u64; 2]>, Vec<[u64; 2]>) {
         let v = f(b);
         let l = v.ln();
         lns.push([b, l.to_bits()]);
-        for x in [-l, (-l).recip().recip(), l, v] {
+        for x in [-l, (-l).recip().recip(), l, v, v.recip().recip()] {
             exps.push([x.to_bits(), x.exp().to_bits()]);
         }
     }
